@@ -177,10 +177,20 @@ type SimWriter struct {
 	Calls   int
 	Fault   *WriteFault
 	Fired   int
+	Syncs   int
 	OnWrite func(callIdx, bytesBefore int) // invoked before each write is applied (cancellation triggers)
 }
 
 func NewSimWriter(sched *Sched) *SimWriter { return &SimWriter{sched: sched} }
+
+// Sync makes the simulated file look like an *os.File to code that probes its
+// destination for it. It never fails (nothing is cached below the simulated
+// disk), in particular not after a failed write - so a caller that lets a
+// successful Sync overwrite an earlier write error reports silent success.
+func (w *SimWriter) Sync() error {
+	w.Syncs++
+	return nil
+}
 
 func (w *SimWriter) Write(p []byte) (int, error) {
 	idx := w.Calls
